@@ -1,6 +1,9 @@
-(* C07 (front end): on the declarative domain of Spec/C07Spec.v the front end - type parser, renaming,
-   field decorators, the four item parsers, the visitor and parse_file - never reaches one of its
-   partial operations (no [Panic]).
+(* C07 (front end): since the /repo fixes of its panic sites the front end - type parser, renaming,
+   field decorators, the four item parsers, the visitor and parse_file - never reaches a partial
+   operation (no [Panic]) on ANY input: the theorems below have no domain hypothesis.  In addition the
+   edge inputs that used to panic and must be DIAGNOSED (Spec/C07Spec.v: a container without its type
+   arguments, an empty tuple struct / variant, in a non-skipped position) are shown to end in an
+   error, and a file containing one is parsed to a ParsedData with a non-empty error list.
 
    Termination: every function of Model/ is a Gallina [Fixpoint]/[Definition], hence total by
    construction; the only non-structural loop of the front end (TargetOsIterator) carries explicit
@@ -23,12 +26,17 @@ Lemma bind_no_panic {A B} (x : outcome A) (f : A -> outcome B) :
 Proof. destruct x as [a|e|s]; cbn [bind is_panic]; intros Hx Hf; [apply Hf|reflexivity|discriminate]. Qed.
 
 Lemma mapM_no_panic {A B} (f : A -> outcome B) l :
-  (forall x, In x l -> is_panic (f x) = false) -> is_panic (mapM f l) = false.
+  (forall x, is_panic (f x) = false) -> is_panic (mapM f l) = false.
 Proof.
-  induction l as [|x r IH]; intros H; [reflexivity|]. cbn [mapM].
-  apply bind_no_panic; [apply H; now left|]. intros y.
-  apply bind_no_panic; [apply IH; intros z Hz; apply H; now right|]. reflexivity.
+  intros H. induction l as [|x r IH]; [reflexivity|]. cbn [mapM].
+  apply bind_no_panic; [apply H|]. intros y.
+  apply bind_no_panic; [apply IH|]. reflexivity.
 Qed.
+
+(* neither Ok nor Panic: an error *)
+Lemma not_ok_is_err {A} (x : outcome A) :
+  is_panic x = false -> (forall a, x <> Ok a) -> exists e, x = Err e.
+Proof. destruct x as [a|e|s]; intros Hp Hn; [exfalso; now apply (Hn a)|eauto|discriminate]. Qed.
 
 (* ---------- 1. the type parser ---------- *)
 Lemma parse_args_length args : forall ps, parse_args args = Ok ps -> length ps = count_type_args args.
@@ -43,146 +51,145 @@ Proof.
 Qed.
 
 Lemma parse_args_no_panic args :
-  Forall (fun o => match o with Some t => ty_safe t = true -> is_panic (parse_ty t) = false | None => True end) args ->
-  (fix go (l : list (option ty)) : bool :=
-     match l with [] => true | None :: r => go r | Some x :: r => ty_safe x && go r end) args = true ->
+  Forall (fun o => match o with Some t => is_panic (parse_ty t) = false | None => True end) args ->
   is_panic (parse_args args) = false.
 Proof.
-  induction 1 as [|o r Ho _ IH]; intros H; [reflexivity|].
-  destruct o as [x|]; cbn [parse_args].
-  - apply andb_true_iff in H as [H1 H2].
-    apply bind_no_panic; [now apply Ho|]. intros y.
-    apply bind_no_panic; [now apply IH|]. reflexivity.
-  - now apply IH.
+  induction 1 as [|o r Ho _ IH]; [reflexivity|].
+  destruct o as [x|]; cbn [parse_args]; [|exact IH].
+  apply bind_no_panic; [exact Ho|]. intros y.
+  apply bind_no_panic; [exact IH|]. reflexivity.
 Qed.
 
 Lemma needs_one_unfold id :
   mem_str id NEEDS_ONE = str_eqb id (lit "Vec") || (str_eqb id (lit "Option") || mem_str id SMART_POINTERS).
 Proof. reflexivity. Qed.
 
-(* the `match id.as_str()` of rust_types.rs:364-406 with enough parsed parameters *)
-Lemma path_dispatch_no_panic id ps :
-  (if mem_str id NEEDS_ONE then Nat.leb 1 (length ps)
-   else if str_eqb id (lit "HashMap") then Nat.leb 2 (length ps) else true) = true ->
-  is_panic (path_dispatch id ps) = false.
+(* the `match id.as_str()` of rust_types.rs: a missing parameter is an error (required_parameter) *)
+Lemma path_dispatch_no_panic id ps : is_panic (path_dispatch id ps) = false.
 Proof.
-  rewrite needs_one_unfold. unfold path_dispatch.
-  destruct (str_eqb id (lit "Vec")) eqn:EV; cbn [orb].
-  { destruct ps; cbn; [discriminate|reflexivity]. }
-  destruct (str_eqb id (lit "Option")) eqn:EO; cbn [orb].
-  { destruct ps; cbn; [discriminate|reflexivity]. }
-  destruct (str_eqb id (lit "HashMap")) eqn:EH.
-  { apply str_eqb_eq in EH. subst id.
-    change (mem_str (lit "HashMap") SMART_POINTERS) with false. cbv iota.
-    destruct ps as [|? [|? ?]]; cbn; try discriminate; reflexivity. }
-  destruct (mem_str id SMART_POINTERS).
-  { destruct ps; cbn; [discriminate|reflexivity]. }
-  intros _. destruct (mem_str id UNSUPPORTED_INTS); [reflexivity|].
+  unfold path_dispatch.
+  destruct (str_eqb id (lit "Vec")). { destruct ps; reflexivity. }
+  destruct (str_eqb id (lit "Option")). { destruct ps; reflexivity. }
+  destruct (str_eqb id (lit "HashMap")). { destruct ps as [|? [|? ?]]; reflexivity. }
+  destruct (mem_str id SMART_POINTERS). { destruct ps; reflexivity. }
+  destruct (mem_str id UNSUPPORTED_INTS); [reflexivity|].
   destruct (prim_of_name id); [reflexivity|]. destruct ps; reflexivity.
 Qed.
 
-Theorem ty_safe_no_panic t : ty_safe t = true -> is_panic (parse_ty t) = false.
+(* ... and it succeeds only with enough parameters *)
+Lemma path_dispatch_ok_enough id ps r : path_dispatch id ps = Ok r ->
+  (if mem_str id NEEDS_ONE then Nat.leb 1 (length ps)
+   else if str_eqb id (lit "HashMap") then Nat.leb 2 (length ps) else true) = true.
 Proof.
-  induction t as [q id args IH|t IH|l IH|t n IH|t IH|] using ty_ind'; intros H.
-  - rewrite parse_ty_path. cbn [ty_safe] in H. apply andb_true_iff in H as [Ha Hd].
-    pose proof (parse_args_no_panic args IH Ha) as Hn.
-    destruct (parse_args args) as [ps| |] eqn:E; cbn [bind]; [|reflexivity|discriminate].
-    apply path_dispatch_no_panic. rewrite (parse_args_length args ps E). exact Hd.
-  - cbn [parse_ty]. now apply IH.
+  rewrite needs_one_unfold. unfold path_dispatch.
+  destruct (str_eqb id (lit "Vec")) eqn:EV; cbn [orb].
+  { destruct ps; [discriminate|reflexivity]. }
+  destruct (str_eqb id (lit "Option")) eqn:EO; cbn [orb].
+  { destruct ps; [discriminate|reflexivity]. }
+  destruct (str_eqb id (lit "HashMap")) eqn:EH.
+  { apply str_eqb_eq in EH. subst id.
+    change (mem_str (lit "HashMap") SMART_POINTERS) with false. cbv iota.
+    destruct ps as [|? [|? ?]]; try discriminate; reflexivity. }
+  destruct (mem_str id SMART_POINTERS).
+  { destruct ps; [discriminate|reflexivity]. }
+  reflexivity.
+Qed.
+
+Theorem parse_ty_never_panics t : is_panic (parse_ty t) = false.
+Proof.
+  induction t as [q id args IH|t IH|l IH|t n IH|t IH|] using ty_ind'.
+  - rewrite parse_ty_path. apply bind_no_panic; [now apply parse_args_no_panic|].
+    intros ps. apply path_dispatch_no_panic.
+  - cbn [parse_ty]. exact IH.
   - destruct l; reflexivity.
-  - cbn [ty_safe] in H. specialize (IH H). cbn [parse_ty]. destruct n as [k|]; [|reflexivity].
+  - cbn [parse_ty]. destruct n as [k|]; [|reflexivity].
     apply bind_no_panic; [exact IH|]. intros x. destruct k; reflexivity.
-  - cbn [ty_safe] in H. specialize (IH H). cbn [parse_ty].
-    apply bind_no_panic; [exact IH|]. reflexivity.
+  - cbn [parse_ty]. apply bind_no_panic; [exact IH|]. reflexivity.
   - reflexivity.
 Qed.
 
-(* ---------- 2. renaming (rename.rs:22 is the only partial operation) ---------- *)
-Lemma pascal_first tolow s c : first_significant s = Some c ->
-  exists r, pascal_go tolow true s = aupper c :: r.
+Lemma parse_args_ok_complete args :
+  Forall (fun o => match o with Some t => forall r, parse_ty t = Ok r -> ty_complete t = true | None => True end) args ->
+  forall ps, parse_args args = Ok ps ->
+  (fix go (l : list (option ty)) : bool :=
+     match l with [] => true | None :: r => go r | Some x :: r => ty_complete x && go r end) args = true.
 Proof.
-  induction s as [|c0 r IH]; cbn [first_significant pascal_go]; [discriminate|].
-  destruct (c0 =? ch_us); [exact IH|]. intros [= ->]. eauto.
+  induction 1 as [|o r Ho _ IH]; intros ps; [reflexivity|].
+  destruct o as [x|]; cbn [parse_args]; [|apply IH].
+  destruct (parse_ty x) as [y| |] eqn:Ex; cbn [bind]; try discriminate.
+  destruct (parse_args r) as [ys| |] eqn:Er; cbn [bind]; try discriminate.
+  intros _. rewrite (Ho y eq_refl), (IH ys eq_refl). reflexivity.
 Qed.
 
-Lemma pascal_empty tolow s : first_significant s = None -> pascal_go tolow true s = [].
+(* a type expression is translated only if every Vec / Option / smart pointer in it has a type
+   argument and every HashMap two *)
+Theorem parse_ty_ok_complete t : forall r, parse_ty t = Ok r -> ty_complete t = true.
 Proof.
-  induction s as [|c0 r IH]; cbn [first_significant pascal_go]; [reflexivity|].
-  destruct (c0 =? ch_us); [exact IH|discriminate].
+  induction t as [q id args IH|t IH|l IH|t n IH|t IH|] using ty_ind'; intros r H.
+  - rewrite parse_ty_path in H. cbn [ty_complete].
+    destruct (parse_args args) as [ps| |] eqn:E; cbn [bind] in H; try discriminate.
+    rewrite (parse_args_ok_complete args IH ps E). cbn [andb].
+    rewrite <- (parse_args_length args ps E). exact (path_dispatch_ok_enough id ps r H).
+  - cbn [parse_ty] in H. cbn [ty_complete]. now apply (IH r).
+  - reflexivity.
+  - cbn [ty_complete]. cbn [parse_ty] in H. destruct n as [k|]; [|discriminate].
+    destruct (parse_ty t) as [x| |] eqn:Ex; cbn [bind] in H; try discriminate. now apply (IH x).
+  - cbn [ty_complete]. cbn [parse_ty] in H.
+    destruct (parse_ty t) as [x| |] eqn:Ex; cbn [bind] in H; try discriminate. now apply (IH x).
+  - reflexivity.
 Qed.
 
-Lemma aupper_ascii c : (aupper c <? 128) = (c <? 128).
-Proof. unfold aupper, is_alower. destruct ((97 <=? c) && (c <=? 122)) eqn:E; lia. Qed.
-
-(* to_camel_case panics exactly when the identifier has no significant character or its first
-   significant character is not ASCII *)
-Theorem camel_panics_iff s :
-  is_panic (to_camel_case s) = negb (match first_significant s with Some c => c <? 128 | None => false end).
+(* so a container without its type argument(s), at any depth, is an error: diagnosed, not a panic *)
+Theorem incomplete_type_is_error t : ty_complete t = false -> exists e, parse_ty t = Err e.
 Proof.
-  unfold to_camel_case, to_pascal_case. destruct (first_significant s) as [c|] eqn:E.
-  - destruct (pascal_first (all_upper s) s c E) as [r ->]. rewrite aupper_ascii.
-    destruct (c <? 128); reflexivity.
-  - now rewrite (pascal_empty _ s E).
+  intros H. apply not_ok_is_err; [apply parse_ty_never_panics|].
+  intros r Hr. rewrite (parse_ty_ok_complete t r Hr) in H. discriminate.
 Qed.
 
-Theorem rename_safe_no_panic uc rule ident :
-  rename_safe rule ident = true -> is_panic (rename_all_to_case uc ident rule) = false.
+(* ---------- 2. renaming (rename.rs:22 was the only partial operation) ---------- *)
+(* since the /repo fix of to_camel_case (no byte slicing) it never panics, whatever the identifier *)
+Theorem camel_never_panics s : is_panic (to_camel_case s) = false.
+Proof. unfold to_camel_case. destruct (to_pascal_case s); reflexivity. Qed.
+
+(* what it returns: the PascalCase form with its first character ASCII-lowered; empty stays empty *)
+Theorem camel_case_value s :
+  to_camel_case s = Ok (match to_pascal_case s with [] => [] | c :: r => alower c :: r end).
+Proof. unfold to_camel_case. destruct (to_pascal_case s); reflexivity. Qed.
+
+Theorem rename_never_panics uc rule ident : is_panic (rename_all_to_case uc ident rule) = false.
 Proof.
-  unfold rename_safe, rename_all_to_case. destruct rule as [v|]; [|reflexivity].
+  unfold rename_all_to_case. destruct rule as [v|]; [|reflexivity].
   destruct (str_eqb v (lit "lowercase")); [reflexivity|].
   destruct (str_eqb v (lit "UPPERCASE")); [reflexivity|].
   destruct (str_eqb v (lit "PascalCase")); [reflexivity|].
   destruct (str_eqb v (lit "camelCase")).
-  - intros H. rewrite camel_panics_iff, H. reflexivity.
-  - intros _. repeat (match goal with |- context [str_eqb v ?x] => destruct (str_eqb v x); [reflexivity|] end).
+  - apply camel_never_panics.
+  - repeat (match goal with |- context [str_eqb v ?x] => destruct (str_eqb v x); [reflexivity|] end).
     reflexivity.
 Qed.
 
 (* ---------- 3. field decorators (parser.rs:737) ---------- *)
-Lemma lang_name_ok_some uc name : lang_name_ok uc name = true -> exists l, lang_of_str uc name = Some l.
+Theorem decorators_never_panic uc attrs : is_panic (get_field_decorators uc attrs) = false.
 Proof.
-  unfold lang_name_ok, lang_of_str. cbv zeta. generalize (str_to_lowercase uc name). intros l.
-  unfold mem_str. cbn [existsb].
-  destruct (str_eqb l (lit "go")); [eauto|].
-  destruct (str_eqb l (lit "kotlin")); [eauto|].
-  destruct (str_eqb l (lit "scala")); [eauto|].
-  destruct (str_eqb l (lit "swift")); [eauto|].
-  destruct (str_eqb l (lit "typescript")); [eauto|].
-  destruct (str_eqb l (lit "python")); [eauto|]. discriminate.
-Qed.
-
-Theorem decorators_safe_no_panic uc attrs :
-  decorators_safe uc attrs = true -> is_panic (get_field_decorators uc attrs) = false.
-Proof.
-  unfold decorators_safe, get_field_decorators. intros H. cbv zeta.
-  assert (Hl : forallb (fun m => match m with MList [name] _ _ => lang_name_ok uc name | _ => true end)
-                       (flat_map (fun a => get_meta_items a TYPESHARE) attrs) = true).
-  { induction attrs as [|a r IH]; [reflexivity|]. cbn [forallb flat_map] in *.
-    apply andb_true_iff in H as [H1 H2]. rewrite forallb_app, H1. now apply IH. }
-  clear H. revert Hl. generalize (flat_map (fun a => get_meta_items a TYPESHARE) attrs). intros l Hl.
+  unfold get_field_decorators. cbv zeta.
+  generalize (flat_map (fun a => get_meta_items a TYPESHARE) attrs). intros l.
   match goal with |- is_panic (fold_left ?f _ _) = false => set (F := f) end.
   assert (G : forall acc : outcome fdecmap, is_panic acc = false -> is_panic (fold_left F l acc) = false).
-  { induction l as [|m r IH]; intros acc Ha; [exact Ha|]. cbn [fold_left].
-    cbn [forallb] in Hl. apply andb_true_iff in Hl as [Hm Hr]. apply (IH Hr).
+  { induction l as [|m r IH]; intros acc Ha; [exact Ha|]. cbn [fold_left]. apply IH.
     subst F. cbv beta. apply bind_no_panic; [exact Ha|]. intros mp.
     destruct m as [p|p args dargs|p v]; try reflexivity.
     destruct p as [|name [|? ?]]; try reflexivity.
-    destruct (lang_name_ok_some uc name Hm) as [lg ->]. reflexivity. }
+    destruct (lang_of_str uc name); reflexivity. }
   apply G. reflexivity.
 Qed.
 
 (* ---------- get_ident ---------- *)
-Lemma get_ident_no_panic uc i attrs rule :
-  rename_safe rule (ident_of i) = true -> is_panic (get_ident uc i attrs rule) = false.
+Lemma get_ident_no_panic uc i attrs rule : is_panic (get_ident uc i attrs rule) = false.
 Proof.
-  intros H. unfold get_ident. cbv zeta.
-  apply bind_no_panic; [exact (rename_safe_no_panic uc rule (ident_of i) H)|]. intros r.
+  unfold get_ident. cbv zeta.
+  apply bind_no_panic; [apply rename_never_panics|]. intros r.
   destruct (serde_rename uc attrs); reflexivity.
 Qed.
-
-(* without a rename_all rule (type names) get_ident cannot fail at all *)
-Lemma get_ident_plain_no_panic uc i attrs : is_panic (get_ident uc i attrs None) = false.
-Proof. apply get_ident_no_panic. reflexivity. Qed.
 
 (* ---------- 4. the item parsers ---------- *)
 Definition is_leaf_item (it : item) : bool :=
@@ -192,122 +199,198 @@ Section U.
 Variable uc : unicode.
 Variable tstr : str -> option ty.
 Variable T : list str.
-(* the skip decision of the code is the documented one (true without --target-os, and for every
-   attribute list whose cfg predicates parse: C13) *)
-Hypothesis Hskip : forall attrs, is_skipped T attrs = skipped7 T attrs.
 
-Lemma effective_ty_no_panic attrs declared : effective_ty_safe uc tstr attrs declared = true ->
+Lemma parse_ty_str_no_panic s : is_panic (parse_ty_str tstr s) = false.
+Proof. unfold parse_ty_str. destruct (tstr s); [apply parse_ty_never_panics|reflexivity]. Qed.
+
+Lemma effective_ty_no_panic attrs declared :
   is_panic (match get_serialized_as_type uc attrs with
             | Some s => parse_ty_str tstr s
             | None => parse_ty declared
             end) = false.
-Proof.
-  unfold effective_ty_safe, parse_ty_str. destruct (get_serialized_as_type uc attrs) as [s|].
-  - destruct (tstr s) as [t|]; [apply ty_safe_no_panic|reflexivity].
-  - apply ty_safe_no_panic.
-Qed.
+Proof. destruct (get_serialized_as_type uc attrs); [apply parse_ty_str_no_panic|apply parse_ty_never_panics]. Qed.
 
-Lemma field_type_no_panic f :
-  effective_ty_safe uc tstr (f_attrs f) (f_ty f) = true -> is_panic (field_type uc tstr f) = false.
+Lemma field_type_no_panic f : is_panic (field_type uc tstr f) = false.
 Proof. apply effective_ty_no_panic. Qed.
 
-Lemma serialized_as_no_panic s :
-  match tstr s with Some t => ty_safe t | None => true end = true -> is_panic (parse_ty_str tstr s) = false.
-Proof. unfold parse_ty_str. destruct (tstr s); [apply ty_safe_no_panic|reflexivity]. Qed.
-
-Lemma parse_field_no_panic cf rule f :
-  is_skipped T (f_attrs f) = false -> field_safe uc tstr T rule f = true ->
-  is_panic (parse_field uc tstr cf rule f) = false.
+Lemma parse_field_no_panic cf rule f : is_panic (parse_field uc tstr cf rule f) = false.
 Proof.
-  intros Hs H. unfold field_safe in H. rewrite <- Hskip, Hs in H. cbn [orb] in H.
-  apply andb_true_iff in H as [H Hr]. apply andb_true_iff in H as [Ht Hd].
-  unfold parse_field. apply bind_no_panic; [now apply field_type_no_panic|]. intros t.
+  unfold parse_field. apply bind_no_panic; [apply field_type_no_panic|]. intros t.
   destruct (cf && serde_flatten (f_attrs f)); [reflexivity|].
-  apply bind_no_panic; [now apply decorators_safe_no_panic|]. intros decs.
-  apply bind_no_panic; [now apply get_ident_no_panic|]. reflexivity.
-Qed.
-
-Lemma fields_no_panic cf rule l : forallb (field_safe uc tstr T rule) l = true ->
-  is_panic (mapM (parse_field uc tstr cf rule) (filter (fun f => negb (is_skipped T (f_attrs f))) l)) = false.
-Proof.
-  intros H. apply mapM_no_panic. intros f Hin. apply filter_In in Hin as [Hin Hs].
-  apply negb_true_iff in Hs. apply parse_field_no_panic; [exact Hs|].
-  rewrite forallb_forall in H. now apply H.
+  apply bind_no_panic; [apply decorators_never_panic|]. intros decs.
+  apply bind_no_panic; [apply get_ident_no_panic|]. reflexivity.
 Qed.
 
 Lemma mk_alias_no_panic attrs ident gens t : is_panic (mk_alias uc attrs ident gens t) = false.
-Proof. unfold mk_alias. apply bind_no_panic; [apply get_ident_plain_no_panic|]. reflexivity. Qed.
+Proof. unfold mk_alias. apply bind_no_panic; [apply get_ident_no_panic|]. reflexivity. Qed.
 
-Theorem struct_no_panic attrs ident gens fs :
-  leaf_safe uc tstr T (IStruct attrs ident gens fs) = true ->
-  is_panic (parse_struct uc tstr T attrs ident gens fs) = false.
+Theorem struct_never_panics attrs ident gens fs : is_panic (parse_struct uc tstr T attrs ident gens fs) = false.
 Proof.
-  cbn [leaf_safe]. unfold parse_struct. cbv zeta. destruct (get_serialized_as_type uc attrs) as [s|].
-  - intros H. apply bind_no_panic; [apply get_ident_plain_no_panic|]. intros i.
-    apply bind_no_panic; [now apply serialized_as_no_panic|]. reflexivity.
+  unfold parse_struct. cbv zeta. destruct (get_serialized_as_type uc attrs) as [s|].
+  - apply bind_no_panic; [apply get_ident_no_panic|]. intros i.
+    apply bind_no_panic; [apply parse_ty_str_no_panic|]. reflexivity.
   - destruct fs as [l|l|].
-    + intros H. apply bind_no_panic; [now apply fields_no_panic|]. intros fields.
-      apply bind_no_panic; [apply get_ident_plain_no_panic|]. reflexivity.
-    + destruct l as [|f [|f2 r]]; [discriminate| |reflexivity].
-      intros H. apply bind_no_panic; [now apply field_type_no_panic|]. intros t.
-      apply mk_alias_no_panic.
-    + intros _. apply bind_no_panic; [apply get_ident_plain_no_panic|]. reflexivity.
+    + apply bind_no_panic; [apply mapM_no_panic; apply parse_field_no_panic|]. intros fields.
+      apply bind_no_panic; [apply get_ident_no_panic|]. reflexivity.
+    + destruct l as [|f [|f2 r]]; [reflexivity| |reflexivity].
+      apply bind_no_panic; [apply field_type_no_panic|]. intros t. apply mk_alias_no_panic.
+    + apply bind_no_panic; [apply get_ident_no_panic|]. reflexivity.
 Qed.
 
-Lemma variant_no_panic rule v :
-  is_skipped T (v_attrs v) = false -> variant_safe uc tstr T rule v = true ->
-  is_panic (parse_enum_variant uc tstr T rule v) = false.
+Lemma variant_never_panics rule v : is_panic (parse_enum_variant uc tstr T rule v) = false.
 Proof.
-  intros Hs H. unfold variant_safe in H. rewrite <- Hskip, Hs in H. cbn [orb] in H.
-  apply andb_true_iff in H as [Hr H]. unfold parse_enum_variant.
-  apply bind_no_panic; [now apply get_ident_no_panic|]. intros i. cbv zeta.
+  unfold parse_enum_variant.
+  apply bind_no_panic; [apply get_ident_no_panic|]. intros i. cbv zeta.
   destruct (v_fields v) as [l|l|].
-  - apply bind_no_panic; [now apply fields_no_panic|]. reflexivity.
-  - destruct l as [|f [|f2 r]]; [discriminate| |reflexivity].
-    apply bind_no_panic; [now apply field_type_no_panic|]. reflexivity.
+  - apply bind_no_panic; [apply mapM_no_panic; apply parse_field_no_panic|]. reflexivity.
+  - destruct l as [|f [|f2 r]]; [reflexivity| |reflexivity].
+    apply bind_no_panic; [apply field_type_no_panic|]. reflexivity.
   - reflexivity.
 Qed.
 
-Theorem enum_no_panic attrs ident gens vs :
-  leaf_safe uc tstr T (IEnum attrs ident gens vs) = true ->
-  is_panic (parse_enum uc tstr T attrs ident gens vs) = false.
+Theorem enum_never_panics attrs ident gens vs : is_panic (parse_enum uc tstr T attrs ident gens vs) = false.
 Proof.
-  cbn [leaf_safe]. unfold parse_enum. cbv zeta. destruct (get_serialized_as_type uc attrs) as [s|].
-  - intros H. apply bind_no_panic; [apply get_ident_plain_no_panic|]. intros i.
-    apply bind_no_panic; [now apply serialized_as_no_panic|]. reflexivity.
-  - intros H. apply bind_no_panic.
-    + apply mapM_no_panic. intros v Hin. apply filter_In in Hin as [Hin Hs]. apply negb_true_iff in Hs.
-      apply variant_no_panic; [exact Hs|]. rewrite forallb_forall in H. now apply H.
-    + intros variants. apply bind_no_panic; [apply get_ident_plain_no_panic|]. intros i.
-      destruct (forallb _ variants); destruct (get_tag_key uc attrs); destruct (get_content_key uc attrs); reflexivity.
+  unfold parse_enum. cbv zeta. destruct (get_serialized_as_type uc attrs) as [s|].
+  - apply bind_no_panic; [apply get_ident_no_panic|]. intros i.
+    apply bind_no_panic; [apply parse_ty_str_no_panic|]. reflexivity.
+  - apply bind_no_panic; [apply mapM_no_panic; apply variant_never_panics|].
+    intros variants. apply bind_no_panic; [apply get_ident_no_panic|]. intros i.
+    destruct (forallb _ variants); destruct (get_tag_key uc attrs); destruct (get_content_key uc attrs); reflexivity.
 Qed.
 
-Theorem alias_no_panic attrs ident gens t :
-  leaf_safe uc tstr T (IType attrs ident gens t) = true ->
-  is_panic (parse_type_alias uc tstr attrs ident gens t) = false.
+Theorem alias_never_panics attrs ident gens t : is_panic (parse_type_alias uc tstr attrs ident gens t) = false.
 Proof.
-  cbn [leaf_safe]. unfold parse_type_alias. intros H.
-  apply bind_no_panic; [now apply effective_ty_no_panic|]. intros rt. apply mk_alias_no_panic.
+  unfold parse_type_alias. apply bind_no_panic; [apply effective_ty_no_panic|]. intros rt. apply mk_alias_no_panic.
 Qed.
 
-Theorem const_no_panic attrs ident t e :
-  leaf_safe uc tstr T (IConst attrs ident t e) = true ->
-  is_panic (parse_const uc tstr attrs ident t e) = false.
+Lemma const_expr_never_panics e : is_panic (parse_const_expr e) = false.
 Proof.
-  cbn [leaf_safe]. unfold parse_const. intros H. apply bind_no_panic.
-  - destruct (ce_first_lit e) as [[[z|]|]|]; reflexivity.
-  - intros v. apply bind_no_panic; [now apply effective_ty_no_panic|]. intros rt.
-    destruct rt; try reflexivity; (apply bind_no_panic; [apply get_ident_plain_no_panic|reflexivity]).
+  induction e as [l|x IH|x IH|]; cbn [parse_const_expr].
+  - destruct l as [[z|]|]; reflexivity.
+  - exact IH.
+  - apply bind_no_panic; [exact IH|]. reflexivity.
+  - reflexivity.
 Qed.
 
-Theorem leaf_safe_no_panic it :
-  is_leaf_item it = true -> leaf_safe uc tstr T it = true -> is_panic (parse_leaf uc tstr T it) = false.
+Theorem const_never_panics attrs ident t e : is_panic (parse_const uc tstr attrs ident t e) = false.
 Proof.
-  destruct it as [a i g fs|a i g vs|a i g t|a i t e|u|inner]; cbn [is_leaf_item parse_leaf]; intros Hl H; try discriminate.
-  - now apply struct_no_panic.
-  - now apply enum_no_panic.
-  - now apply alias_no_panic.
-  - now apply const_no_panic.
+  unfold parse_const. apply bind_no_panic; [apply const_expr_never_panics|].
+  intros v. apply bind_no_panic; [apply effective_ty_no_panic|]. intros rt.
+  destruct rt; try reflexivity; (apply bind_no_panic; [apply get_ident_no_panic|reflexivity]).
+Qed.
+
+Theorem leaf_never_panics it : is_leaf_item it = true -> is_panic (parse_leaf uc tstr T it) = false.
+Proof.
+  destruct it as [a i g fs|a i g vs|a i g t|a i t e|u|inner]; cbn [is_leaf_item parse_leaf]; intros Hl; try discriminate.
+  - apply struct_never_panics.
+  - apply enum_never_panics.
+  - apply alias_never_panics.
+  - apply const_never_panics.
+Qed.
+
+(* ----- the edge inputs are diagnosed: an item is generated only if it is complete ----- *)
+(* the skip decision of the code is the documented one (true without --target-os, and for every
+   attribute list whose cfg predicates parse: C13) *)
+Hypothesis Hskip : forall attrs, is_skipped T attrs = skipped7 T attrs.
+
+Lemma effective_ty_ok_complete attrs declared r :
+  match get_serialized_as_type uc attrs with
+  | Some s => parse_ty_str tstr s
+  | None => parse_ty declared
+  end = Ok r -> effective_ty_complete uc tstr attrs declared = true.
+Proof.
+  unfold effective_ty_complete, parse_ty_str. destruct (get_serialized_as_type uc attrs) as [s|].
+  - destruct (tstr s) as [t|]; [apply parse_ty_ok_complete|reflexivity].
+  - apply parse_ty_ok_complete.
+Qed.
+
+Lemma field_type_ok_complete f r :
+  field_type uc tstr f = Ok r -> effective_ty_complete uc tstr (f_attrs f) (f_ty f) = true.
+Proof. apply effective_ty_ok_complete. Qed.
+
+Lemma parse_field_ok_complete cf rule f rf :
+  parse_field uc tstr cf rule f = Ok rf -> effective_ty_complete uc tstr (f_attrs f) (f_ty f) = true.
+Proof.
+  unfold parse_field. destruct (field_type uc tstr f) as [t| |] eqn:Et; cbn [bind]; try discriminate.
+  intros _. now apply (field_type_ok_complete f t).
+Qed.
+
+Lemma fields_ok_complete cf rule l : forall fs,
+  mapM (parse_field uc tstr cf rule) (filter (fun f => negb (is_skipped T (f_attrs f))) l) = Ok fs ->
+  forallb (field_complete uc tstr T) l = true.
+Proof.
+  induction l as [|f r IH]; intros fs; [reflexivity|]. cbn [filter forallb]. unfold field_complete at 1.
+  rewrite <- Hskip. destruct (is_skipped T (f_attrs f)); cbn [negb orb].
+  - apply IH.
+  - cbn [mapM]. destruct (parse_field uc tstr cf rule f) as [rf| |] eqn:Ef; cbn [bind]; try discriminate.
+    destruct (mapM _ _) as [rest| |] eqn:Er; cbn [bind]; try discriminate.
+    intros _. rewrite (parse_field_ok_complete cf rule f rf Ef). now apply (IH rest).
+Qed.
+
+Lemma variant_ok_complete rule v rv :
+  is_skipped T (v_attrs v) = false -> parse_enum_variant uc tstr T rule v = Ok rv ->
+  variant_complete uc tstr T v = true.
+Proof.
+  intros Hs. unfold variant_complete. rewrite <- Hskip, Hs. cbn [orb]. unfold parse_enum_variant.
+  destruct (get_ident _ _ _ _); cbn [bind]; try discriminate. cbv zeta.
+  destruct (v_fields v) as [l|l|].
+  - destruct (mapM _ _) as [fs| |] eqn:Em; cbn [bind]; try discriminate. intros _. eapply fields_ok_complete; exact Em.
+  - destruct l as [|f [|f2 r]]; [discriminate| |reflexivity].
+    destruct (field_type uc tstr f) as [t| |] eqn:Et; cbn [bind]; try discriminate. intros _.
+    now apply (field_type_ok_complete f t).
+  - reflexivity.
+Qed.
+
+Lemma variants_ok_complete rule vs : forall rvs,
+  mapM (parse_enum_variant uc tstr T rule) (filter (fun v => negb (is_skipped T (v_attrs v))) vs) = Ok rvs ->
+  forallb (variant_complete uc tstr T) vs = true.
+Proof.
+  induction vs as [|v r IH]; intros rvs; [reflexivity|]. cbn [filter forallb].
+  destruct (is_skipped T (v_attrs v)) eqn:Es; cbn [negb].
+  - intros H. unfold variant_complete at 1. rewrite <- Hskip, Es. cbn [orb]. now apply (IH rvs).
+  - cbn [mapM]. destruct (parse_enum_variant uc tstr T rule v) as [rv| |] eqn:Ev; cbn [bind]; try discriminate.
+    destruct (mapM _ _) as [rest| |] eqn:Er; cbn [bind]; try discriminate.
+    intros _. rewrite (variant_ok_complete rule v rv Es Ev). now apply (IH rest).
+Qed.
+
+Lemma serialized_as_ok_complete s r :
+  parse_ty_str tstr s = Ok r -> match tstr s with Some t => ty_complete t | None => true end = true.
+Proof. unfold parse_ty_str. destruct (tstr s); [apply parse_ty_ok_complete|reflexivity]. Qed.
+
+Theorem leaf_ok_complete it r : parse_leaf uc tstr T it = Ok r -> leaf_complete uc tstr T it = true.
+Proof.
+  destruct it as [a i g fs|a i g vs|a i g t|a i t e|u|inner]; cbn [parse_leaf leaf_complete]; try discriminate.
+  - unfold parse_struct. cbv zeta. destruct (get_serialized_as_type uc a) as [s|].
+    + destruct (get_ident _ _ _ _); cbn [bind]; try discriminate.
+      destruct (parse_ty_str tstr s) as [rt| |] eqn:Es; cbn [bind]; try discriminate.
+      intros _. now apply (serialized_as_ok_complete s rt).
+    + destruct fs as [l|l|].
+      * destruct (mapM _ _) as [fs| |] eqn:Em; cbn [bind]; try discriminate. intros _.
+        eapply fields_ok_complete; exact Em.
+      * destruct l as [|f [|f2 r']]; [discriminate| |reflexivity].
+        destruct (field_type uc tstr f) as [rt| |] eqn:Et; cbn [bind]; try discriminate. intros _.
+        now apply (field_type_ok_complete f rt).
+      * reflexivity.
+  - unfold parse_enum. cbv zeta. destruct (get_serialized_as_type uc a) as [s|].
+    + destruct (get_ident _ _ _ _); cbn [bind]; try discriminate.
+      destruct (parse_ty_str tstr s) as [rt| |] eqn:Es; cbn [bind]; try discriminate.
+      intros _. now apply (serialized_as_ok_complete s rt).
+    + destruct (mapM _ _) as [rvs| |] eqn:Em; cbn [bind]; try discriminate. intros _.
+      eapply variants_ok_complete; exact Em.
+  - unfold parse_type_alias.
+    destruct (match get_serialized_as_type uc a with Some s => _ | None => _ end) as [rt| |] eqn:Et; cbn [bind]; try discriminate.
+    intros _. now apply (effective_ty_ok_complete a t rt).
+  - unfold parse_const. destruct (parse_const_expr e); cbn [bind]; try discriminate.
+    destruct (match get_serialized_as_type uc a with Some s => _ | None => _ end) as [rt| |] eqn:Et; cbn [bind]; try discriminate.
+    intros _. now apply (effective_ty_ok_complete a t rt).
+Qed.
+
+(* an incomplete annotated item ends in an error: it is reported, neither generated nor a panic *)
+Theorem incomplete_leaf_is_error it :
+  is_leaf_item it = true -> leaf_complete uc tstr T it = false -> exists e, parse_leaf uc tstr T it = Err e.
+Proof.
+  intros Hl H. apply not_ok_is_err; [now apply leaf_never_panics|].
+  intros r Hr. rewrite (leaf_ok_complete it r Hr) in H. discriminate.
 Qed.
 End U.
 
@@ -332,20 +415,60 @@ Proof.
   apply Forall_app. split; [apply leaves_are_leaves|exact IH].
 Qed.
 
-Lemma fold_collect_no_panic results : forall pd,
-  Forall (fun r : outcome ritem => is_panic r = false) results -> is_panic (fold_collect results pd) = false.
+(* the collector never fails: an Err result is recorded, so without a panic the fold ends in Ok *)
+Lemma fold_collect_total results : forall pd,
+  Forall (fun r : outcome ritem => is_panic r = false) results -> exists pd', fold_collect results pd = Ok pd'.
 Proof.
-  induction results as [|r rs IH]; intros pd H; [reflexivity|].
+  induction results as [|r rs IH]; intros pd H; [now exists pd|].
   change (r :: rs) with ([r] ++ rs). rewrite fold_collect_app.
   inversion H as [|? ? Hr Hrs]; subst.
-  apply bind_no_panic; [|intros p; now apply IH].
-  unfold fold_collect. cbn [fold_left bind]. destruct r as [it|e|s]; [reflexivity|reflexivity|discriminate].
+  unfold fold_collect at 1. cbn [fold_left bind]. destruct r as [it|e|s]; [| |discriminate]; cbn [collect_result bind]; now apply IH.
+Qed.
+
+Definition n_errors (results : list (outcome ritem)) : nat :=
+  List.length (filter (fun r => match r with Err _ => true | _ => false end) results).
+
+Lemma fold_collect_errors results : forall pd pd',
+  fold_collect results pd = Ok pd' -> List.length (p_errors pd') = (List.length (p_errors pd) + n_errors results)%nat.
+Proof.
+  induction results as [|r rs IH]; intros pd pd' H.
+  - unfold fold_collect in H. cbn in H. injection H as <-. unfold n_errors. cbn. lia.
+  - change (r :: rs) with ([r] ++ rs) in H. rewrite fold_collect_app in H.
+    unfold fold_collect at 1 in H. cbn [fold_left bind] in H.
+    destruct r as [it|e|s]; cbn [collect_result bind] in H; [| |discriminate].
+    + apply IH in H. rewrite H. unfold n_errors. cbn [filter]. destruct it; reflexivity.
+    + apply IH in H. rewrite H. unfold n_errors. cbn [filter p_errors List.length]. rewrite app_length. cbn. lia.
 Qed.
 
 Section File.
 Variable uc : unicode.
 Variable tstr : str -> option ty.
 Variable T : list str.
+
+Lemma wanted_results_no_panic l : Forall (fun r : outcome ritem => is_panic r = false) (wanted_results uc tstr T (leaves_of l)).
+Proof.
+  unfold wanted_results. apply Forall_map. apply Forall_forall. intros it Hin. apply filter_In in Hin as [Hin _].
+  apply leaf_never_panics. pose proof (leaves_of_are_leaves l) as HL. rewrite Forall_forall in HL. now apply HL.
+Qed.
+
+(* the visitor always finishes with a ParsedData, for every item list, --target-os list and nesting depth *)
+Theorem visit_items_total l pd : exists pd', visit_items uc tstr T l pd = Ok pd'.
+Proof. rewrite visit_items_spec. apply fold_collect_total. apply wanted_results_no_panic. Qed.
+
+Theorem visit_items_never_panics l pd : is_panic (visit_items uc tstr T l pd) = false.
+Proof. destruct (visit_items_total l pd) as [pd' ->]. reflexivity. Qed.
+
+(* parser::parse never panics and never fails as a whole (per-item errors are recorded inside) *)
+Theorem parse_file_total f : exists r, parse_file uc tstr T f = Ok r.
+Proof.
+  unfold parse_file. destruct (negb (fl_marker f)); [eauto|].
+  destruct (accepts T (fl_attrs f)); cbn [bind]; [|eauto].
+  destruct (visit_items_total (fl_items f) empty_parsed) as [pd ->]. cbn [bind]. eauto.
+Qed.
+
+Theorem parse_file_never_panics f : is_panic (parse_file uc tstr T f) = false.
+Proof. destruct (parse_file_total f) as [r ->]. reflexivity. Qed.
+
 (* the code's --target-os decision is the documented rule (C13: holds for every attribute list
    whose cfg predicates parse; outright for T = []) *)
 Hypothesis Hacc : forall attrs, accepts T attrs = os_rule attrs T.
@@ -356,28 +479,6 @@ Proof. unfold is_skipped, skipped7. now rewrite skip_marker_spec, Hacc. Qed.
 Lemma wanted_is_expected it : wanted T (leaf_attrs it) = expected_leaf T it.
 Proof. unfold wanted, expected_leaf. now rewrite annotated_spec, Hacc. Qed.
 
-Theorem visit_items_no_panic l pd :
-  forallb (leaf_safe uc tstr T) (filter (expected_leaf T) (leaves_of l)) = true ->
-  is_panic (visit_items uc tstr T l pd) = false.
-Proof.
-  intros H. rewrite visit_items_spec. apply fold_collect_no_panic.
-  unfold wanted_results. apply Forall_map. apply Forall_forall. intros it Hin.
-  apply filter_In in Hin as [Hin Hw]. rewrite wanted_is_expected in Hw.
-  apply leaf_safe_no_panic.
-  - exact skip_from_acc.
-  - pose proof (leaves_of_are_leaves l) as HL. rewrite Forall_forall in HL. now apply HL.
-  - rewrite forallb_forall in H. apply H. apply filter_In. now split.
-Qed.
-
-Theorem front_safe_no_panic f :
-  front_safe uc tstr T f = true -> is_panic (parse_file uc tstr T f) = false.
-Proof.
-  unfold front_safe, expected_leaves, parse_file. destruct (fl_marker f); cbn [negb andb]; [|reflexivity].
-  rewrite Hacc. destruct (os_rule (fl_attrs f) T).
-  - intros H. apply bind_no_panic; [now apply visit_items_no_panic|]. reflexivity.
-  - reflexivity.
-Qed.
-
 (* nothing is dropped: every wanted leaf is either pushed or recorded as an error *)
 Theorem all_results_accounted l pd pd' :
   visit_items uc tstr T l pd = Ok pd' ->
@@ -386,9 +487,45 @@ Proof.
   rewrite visit_items_spec. intros H. apply fold_collect_count in H. rewrite H. f_equal.
   unfold wanted_results. rewrite map_length. f_equal. apply filter_ext. intros it. apply wanted_is_expected.
 Qed.
+
+(* every incomplete expected leaf is one recorded error *)
+Lemma incomplete_leaves_are_errors l :
+  (length (filter (fun it => negb (leaf_complete uc tstr T it)) (filter (expected_leaf T) (leaves_of l))) <=
+   n_errors (wanted_results uc tstr T (leaves_of l)))%nat.
+Proof.
+  unfold wanted_results, n_errors.
+  rewrite (filter_ext _ _ (fun it => wanted_is_expected it)).
+  pose proof (leaves_of_are_leaves l) as HL. revert HL. generalize (leaves_of l). intros xs HL.
+  induction HL as [|it r Hit _ IH]; [apply le_n|]. cbn [filter].
+  destruct (expected_leaf T it); [|exact IH]. cbn [filter map].
+  destruct (leaf_complete uc tstr T it) eqn:Ec; cbn [negb].
+  - destruct (parse_leaf uc tstr T it) as [?|?|?]; cbn [List.length]; lia.
+  - destruct (incomplete_leaf_is_error uc tstr T skip_from_acc it Hit Ec) as [e ->]. cbn [List.length]. lia.
+Qed.
+
+(* the file: at least as many errors are reported as there are incomplete expected items; in
+   particular a file with one is never reported as empty and never generated silently *)
+Theorem incomplete_file_is_diagnosed f :
+  exists r, parse_file uc tstr T f = Ok r /\
+            (front_incomplete_leaves uc tstr T f <=
+             match r with Some pd => length (p_errors pd) | None => 0 end)%nat.
+Proof.
+  unfold parse_file, front_incomplete_leaves, expected_leaves. destruct (fl_marker f); cbn [negb andb].
+  2:{ eexists. split; [reflexivity|]. cbn. lia. }
+  rewrite Hacc. destruct (os_rule (fl_attrs f) T); cbn [bind].
+  2:{ eexists. split; [reflexivity|]. cbn. lia. }
+  destruct (visit_items_total (fl_items f) empty_parsed) as [pd E]. rewrite E. cbn [bind].
+  eexists. split; [reflexivity|].
+  rewrite visit_items_spec in E. apply fold_collect_errors in E. cbn [empty_parsed p_errors List.length] in E.
+  pose proof (incomplete_leaves_are_errors (fl_items f)) as Hle.
+  destruct (parsed_is_empty pd) eqn:Ee.
+  - unfold parsed_is_empty in Ee. destruct (p_structs pd), (p_enums pd), (p_aliases pd), (p_consts pd), (p_errors pd); try discriminate.
+    cbn [List.length] in E. lia.
+  - lia.
+Qed.
 End File.
 
-(* without --target-os both hypotheses hold outright *)
+(* without --target-os the hypothesis holds outright *)
 Lemma acc_no_target attrs : accepts [] attrs = os_rule attrs [].
 Proof. reflexivity. Qed.
 
@@ -399,15 +536,16 @@ Proof. apply skip_from_acc. exact acc_no_target. Qed.
 Lemma acc_when_cfg_parsable T attrs : cfg_parsable attrs = true -> accepts T attrs = os_rule attrs T.
 Proof. intros H. unfold accepts. now rewrite (accept_is_rule attrs T H). Qed.
 
-Theorem leaf_safe_no_panic_no_target uc tstr it :
-  is_leaf_item it = true -> leaf_safe uc tstr [] it = true -> is_panic (parse_leaf uc tstr [] it) = false.
-Proof. apply leaf_safe_no_panic. exact skip7_no_target. Qed.
+Theorem incomplete_leaf_is_error_no_target uc tstr it :
+  is_leaf_item it = true -> leaf_complete uc tstr [] it = false -> exists e, parse_leaf uc tstr [] it = Err e.
+Proof. apply incomplete_leaf_is_error. exact skip7_no_target. Qed.
 
-Theorem front_safe_no_panic_no_target uc tstr f :
-  front_safe uc tstr [] f = true -> is_panic (parse_file uc tstr [] f) = false.
-Proof. apply front_safe_no_panic. exact acc_no_target. Qed.
+Theorem incomplete_file_is_diagnosed_no_target uc tstr f :
+  exists r, parse_file uc tstr [] f = Ok r /\
+            (front_incomplete_leaves uc tstr [] f <= match r with Some pd => length (p_errors pd) | None => 0 end)%nat.
+Proof. apply incomplete_file_is_diagnosed. exact acc_no_target. Qed.
 
-(* ---------- 7. witnesses: each carve-out is necessary (one per front-end panic site) ---------- *)
+(* ---------- 7. regression pins: the inputs that panicked before the /repo fixes, and what they yield now ---------- *)
 Definition a_ts : attr := {| a_inner := false; a_meta := MPath [lit "typeshare"] |}.
 Definition a_serde (l : list meta) : attr := {| a_inner := false; a_meta := MList [lit "serde"] (Some l) None |}.
 Definition a_camel : attr := a_serde [MNV [lit "rename_all"] (VStr (lit "camelCase"))].
@@ -416,67 +554,89 @@ Definition t_u8 : ty := TPath [] (lit "u8") [].
 Definition fld (attrs : list attr) (name : str) (t : ty) : field := {| f_attrs := attrs; f_ident := Some name; f_ty := t |}.
 Definition st1 (attrs : list attr) (f : field) : item := IStruct (a_ts :: attrs) (lit "S") [] (FNamed [f]).
 Definition no_tstr : str -> option ty := fun _ => None.
+Definition a_foo_bar : attr :=
+  {| a_inner := false;
+     a_meta := MList [lit "typeshare"] (Some [MList [lit "foo"] (Some [MPath [lit "bar"]]) (Some [(lit "bar", None)])]) None |}.
 
-Definition refutes (it : item) (site : string) : Prop :=
-  is_leaf_item it = true /\ leaf_safe uc_exec no_tstr [] it = false /\ parse_leaf uc_exec no_tstr [] it = Panic site.
+(* the item is in the diagnosed class and ends in exactly this error *)
+Definition diagnosed (it : item) (e : perr) : Prop :=
+  is_leaf_item it = true /\ leaf_complete uc_exec no_tstr [] it = false /\ parse_leaf uc_exec no_tstr [] it = Err e.
 
-(* #[typeshare] struct S(); *)
-Lemma C07_parser_287_refuted : refutes (IStruct [a_ts] (lit "S") [] (FUnnamed [])) "parser.rs:287".
+(* #[typeshare] struct S();   (parser.rs:287) *)
+Lemma C07_parser_287_fixed : diagnosed (IStruct [a_ts] (lit "S") [] (FUnnamed [])) (EUnsupportedTypeP (lit "S()")).
 Proof. vm_compute. repeat split. Qed.
-(* #[typeshare] #[serde(tag = "t", content = "c")] enum E { V() } *)
-Lemma C07_parser_445_refuted :
-  refutes (IEnum [a_ts; a_tagc] (lit "E") [] [{| v_attrs := []; v_ident := lit "V"; v_fields := FUnnamed [] |}]) "parser.rs:445".
+(* #[typeshare] #[serde(tag = "t", content = "c")] enum E { V() }   (parser.rs:445) *)
+Lemma C07_parser_445_fixed :
+  diagnosed (IEnum [a_ts; a_tagc] (lit "E") [] [{| v_attrs := []; v_ident := lit "V"; v_fields := FUnnamed [] |}])
+            (EUnsupportedTypeP (lit "V()")).
 Proof. vm_compute. repeat split. Qed.
-(* struct S { #[typeshare(foo(bar))] a: u8 } *)
-Lemma C07_parser_737_refuted :
-  refutes (st1 [] (fld [{| a_inner := false;
-                           a_meta := MList [lit "typeshare"] (Some [MList [lit "foo"] (Some [MPath [lit "bar"]]) (Some [(lit "bar", None)])]) None |}]
-                       (lit "a") t_u8)) "parser.rs:737".
+(* struct S { #[typeshare(foo(bar))] a: u8 }   (parser.rs:737): the list is ignored - no decorator, and the
+   struct parses exactly as without the attribute *)
+Lemma C07_parser_737_fixed :
+  get_field_decorators uc_exec [a_foo_bar] = Ok [] /\
+  is_ok (parse_leaf uc_exec no_tstr [] (st1 [] (fld [a_foo_bar] (lit "a") t_u8))) = true /\
+  parse_leaf uc_exec no_tstr [] (st1 [] (fld [a_foo_bar] (lit "a") t_u8)) =
+  parse_leaf uc_exec no_tstr [] (st1 [] (fld [] (lit "a") t_u8)).
 Proof. vm_compute. repeat split. Qed.
-(* struct S { a: Vec } / Option / HashMap / HashMap<String> / Box *)
-Lemma C07_rust_types_366_refuted : refutes (st1 [] (fld [] (lit "a") (TPath [] (lit "Vec") []))) "rust_types.rs:366".
+(* struct S { a: Vec } / Option / HashMap / HashMap<String> / Cow<'static>   (rust_types.rs:366-383) *)
+Lemma C07_rust_types_366_fixed : diagnosed (st1 [] (fld [] (lit "a") (TPath [] (lit "Vec") []))) (EUnsupportedType [lit "Vec"]).
 Proof. vm_compute. repeat split. Qed.
-Lemma C07_rust_types_369_refuted : refutes (st1 [] (fld [] (lit "a") (TPath [] (lit "Option") []))) "rust_types.rs:369".
+Lemma C07_rust_types_369_fixed : diagnosed (st1 [] (fld [] (lit "a") (TPath [] (lit "Option") []))) (EUnsupportedType [lit "Option"]).
 Proof. vm_compute. repeat split. Qed.
-Lemma C07_rust_types_374_refuted : refutes (st1 [] (fld [] (lit "a") (TPath [] (lit "HashMap") []))) "rust_types.rs:374".
+Lemma C07_rust_types_374_fixed : diagnosed (st1 [] (fld [] (lit "a") (TPath [] (lit "HashMap") []))) (EUnsupportedType [lit "HashMap"]).
 Proof. vm_compute. repeat split. Qed.
-Lemma C07_rust_types_375_refuted :
-  refutes (st1 [] (fld [] (lit "a") (TPath [] (lit "HashMap") [Some (TPath [] (lit "String") [])]))) "rust_types.rs:375".
+Lemma C07_rust_types_375_fixed :
+  diagnosed (st1 [] (fld [] (lit "a") (TPath [] (lit "HashMap") [Some (TPath [] (lit "String") [])]))) (EUnsupportedType [lit "HashMap"]).
 Proof. vm_compute. repeat split. Qed.
 (* a lifetime argument does not count: Cow<'static> *)
-Lemma C07_rust_types_383_refuted : refutes (st1 [] (fld [] (lit "a") (TPath [] (lit "Cow") [None]))) "rust_types.rs:383".
-Proof. vm_compute. repeat split. Qed.
-(* #[serde(rename_all = "camelCase")] struct S { __: u8 }   and   { étoile: u8 } *)
-Lemma C07_rename_22_underscores_refuted : refutes (st1 [a_camel] (fld [] (lit "__") t_u8)) "rename.rs:22".
-Proof. vm_compute. repeat split. Qed.
-Lemma C07_rename_22_nonascii_refuted : refutes (st1 [a_camel] (fld [] (233 :: lit "toile") t_u8)) "rename.rs:22".
+Lemma C07_rust_types_383_fixed : diagnosed (st1 [] (fld [] (lit "a") (TPath [] (lit "Cow") [None]))) (EUnsupportedType [lit "Cow"]).
 Proof. vm_compute. repeat split. Qed.
 
-(* the hypotheses are satisfiable on a file that exercises every guarded operation *)
+(* wire names of the fields of a parsed struct *)
+Definition field_names_of (o : outcome ritem) : option (list str) :=
+  match o with Ok (ItStruct s) => Some (map (fun f => renamed (fid f)) (sfields s)) | _ => None end.
+(* #[serde(rename_all = "camelCase")] struct S { __: u8 }: the empty name;  { étoile: u8 } / { Étoile: u8 }: a
+   non-ASCII first character is left alone   (rename.rs:22) *)
+Lemma C07_rename_22_underscores_fixed :
+  field_names_of (parse_leaf uc_exec no_tstr [] (st1 [a_camel] (fld [] (lit "__") t_u8))) = Some [[]].
+Proof. vm_compute. reflexivity. Qed.
+Lemma C07_rename_22_nonascii_fixed :
+  field_names_of (parse_leaf uc_exec no_tstr [] (st1 [a_camel] (fld [] (233 :: lit "toile") t_u8))) = Some [233 :: lit "toile"] /\
+  field_names_of (parse_leaf uc_exec no_tstr [] (st1 [a_camel] (fld [] (201 :: lit "toile_du_nord") t_u8))) = Some [201 :: lit "toileDuNord"].
+Proof. vm_compute. split; reflexivity. Qed.
+
+(* a file that exercises every operation that used to be guarded, the former panic triggers included:
+   it parses to 5 items and 3 recorded errors *)
 Definition nonvacuous_file : file :=
   {| fl_attrs := [];
      fl_items :=
        [ st1 [a_camel] (fld [] (lit "_user_id") (TPath [] (lit "Vec") [Some (TPath [lit "std"; lit "collections"] (lit "HashMap")
                                                       [Some (TPath [] (lit "String") []); Some (TPath [] (lit "Option") [Some t_u8])])]));
-         (* the same panic triggers, but skipped / not annotated: outside the obligation *)
+         (* former panic triggers, skipped / not annotated: no effect *)
          st1 [a_camel] (fld [a_serde [MPath [lit "skip"]]] (lit "__") (TPath [] (lit "Vec") []));
          IStruct [] (lit "Unannotated") [] (FUnnamed []);
+         (* former panic triggers, live: three diagnosed items *)
+         IStruct [a_ts] (lit "Empty") [] (FUnnamed []);
+         st1 [] (fld [] (lit "a") (TPath [] (lit "Vec") [Some (TPath [] (lit "Box") [])]));
+         IType [a_ts] (lit "M") [] (TPath [] (lit "HashMap") [Some t_u8]);
          INest [IEnum [a_ts; a_tagc; a_camel] (lit "E") []
                   [{| v_attrs := []; v_ident := lit "A"; v_fields := FUnit |};
                    {| v_attrs := []; v_ident := lit "B"; v_fields := FUnnamed [fld [] (lit "x") (TPath [] (lit "Box") [Some t_u8])] |};
                    {| v_attrs := [a_camel]; v_ident := lit "C";
                       v_fields := FNamed [fld [{| a_inner := false;
-                                                  a_meta := MList [lit "typeshare"] (Some [MList [lit "swift"] None (Some [(lit "type", Some (lit "Int"))])]) None |}]
+                                                  a_meta := MList [lit "typeshare"] (Some [MList [lit "swift"] None (Some [(lit "type", Some (lit "Int"))])]) None |};
+                                               a_foo_bar]
                                               (lit "some_field") t_u8] |}]];
          IType [a_ts] (lit "Alias") [] (TPath [] (lit "Cow") [None; Some (TPath [] (lit "str") [])]);
-         IConst [a_ts] (lit "K") (TPath [] (lit "u32") []) {| ce_first_lit := Some (CInt (Some (Zpos 7))); ce_plain := Some (Zpos 7) |} ];
+         IConst [a_ts] (lit "K") (TPath [] (lit "u32") []) (CENeg (CEParen (CELit (CInt (Some (Zpos 7)))))) ];
      fl_paths := []; fl_marker := true |}.
 
 Example C07_nonvacuous :
-  front_safe uc_exec no_tstr [] nonvacuous_file = true /\
-  List.length (expected_leaves [] nonvacuous_file) = 5%nat /\
+  List.length (expected_leaves [] nonvacuous_file) = 8%nat /\
+  front_incomplete_leaves uc_exec no_tstr [] nonvacuous_file = 3%nat /\
   match parse_file uc_exec no_tstr [] nonvacuous_file with
-  | Ok (Some pd) => count_items pd = 5%nat /\ p_errors pd = []
+  | Ok (Some pd) => count_items pd = 8%nat /\
+                    p_errors pd = [EUnsupportedTypeP (lit "Empty()"); EUnsupportedType [lit "Box"]; EUnsupportedType [lit "HashMap"]]
   | _ => False
   end.
 Proof. vm_compute. repeat split. Qed.
